@@ -10,6 +10,8 @@ import Vegeta.Model.Plot
     → `ok <nlabels> <labelhex>… <nrows> <width> <bits>…` | `err add <i>` (the i-th Add failed) | `err data` | `panic …`
   rows are printed in canonical order: sorted by X, ties ordered by the rows' bit patterns
   (`sort.Sort` is not stable; the harness canonicalises the real rows the same way).
+* `c17.plotcmd <threshold> <k> (<n> (…)×n)×k` → the `plot` command on `k` result files (round-robin
+  decoding, Add each, data): `ok …` as for `c17.plot` | `err` | `panic`
 * `c17.adds <n> (…)×n` → `ok` | `err add <i>` | `panic add <i>`   (only the Adds, no data)
 -/
 namespace Vegeta.Driver.C17
@@ -79,6 +81,14 @@ def handle (op : String) (args : List String) : Option String :=
       | .error _ => pure "err data"
       | .panic => pure "panic data"
     | .inr msg => pure msg
+  | "c17.plotcmd" => do
+    let ((th, files), _) ← (do let th ← int; let fs ← listOf (listOf result); pure (th, fs)).run args
+    let total := files.foldl (fun n f => n + f.length) 0
+    match plotCommand id th (total + 1) (Vegeta.Model.RoundRobin.ofInputs files) with
+    | .ok (rows, labels) =>
+      pure ("ok " ++ showBytesList labels ++ " " ++ showRows (canonTies rows []) labels.length)
+    | .error _ => pure "err"
+    | .panic => pure "panic"
   | "c17.adds" => do
     let (rs, _) ← (listOf result).run args
     match addAllIdx [] rs 0 with
